@@ -60,9 +60,13 @@ func genC09(t *rapid.T) c09Case {
 		// sizes that coincide with the sketch's table sizes (powers of two) are what people configure
 		c.MaxSize = 1 << uint(rapid.IntRange(6, 13).Draw(t, "log2size"))
 	}
-	if c.Workload == "hot" && c.MaxSize < 300 && verifkit.Avoid("C09-small-cache") {
+	if c.Workload == "hot" && c09Entries(c) < 300 && verifkit.Avoid("C09-small-cache") {
 		// known finding: hot sets are not reliably retained by caches of fewer than ~300 entries
+		// (entries, not cost units: with mixed costs 1..4 an entry weighs 2.5 on average)
 		c.MaxSize = rapid.IntRange(300, 2000).Draw(t, "maxsizeSteered")
+		if c.Mixed {
+			c.MaxSize = c.MaxSize * 5 / 2
+		}
 	}
 	if rapid.IntRange(0, 2).Draw(t, "prePhase") == 0 {
 		c.Pre = rapid.SampledFrom([]int{200, 2000, 10000}).Draw(t, "pre")
@@ -76,6 +80,14 @@ func genC09(t *rapid.T) c09Case {
 		c.ReadPct = rapid.SampledFrom([]int{20, 50}).Draw(t, "lpReadPct")
 	}
 	return c
+}
+
+// c09Entries: about how many entries the cache holds (mixed costs are 1..4, 2.5 on average)
+func c09Entries(c c09Case) int {
+	if c.Mixed {
+		return c.MaxSize * 2 / 5
+	}
+	return c.MaxSize
 }
 
 type c09Rng struct{ s uint64 }
@@ -411,7 +423,7 @@ func execC09(c c09Case, x *verifkit.Ctx) *verifkit.Failure {
 		verifkit.Extra("min_hot_ratio_x1000", c09Min("hr", int64(res.hotRatio*1000)))
 		verifkit.Extra("min_hot_resident_x1000", c09Min("hres", int64(res.hotResident*1000)))
 		small := ""
-		if c.MaxSize < 300 {
+		if c09Entries(c) < 300 {
 			small = "/small-cache(<300)"
 		}
 		if c09Calibrate {
